@@ -27,11 +27,16 @@ import itertools
 from zoneinfo import ZoneInfo
 
 from icalendar.cal import Calendar as ICalendar
-from icalendar.cal import Component, FreeBusy, component_factory
+from icalendar.cal import Component, FreeBusy
 from icalendar.prop import vDDDTypes, vPeriod
 
 from . import davcommon, webdav
-from .icalendar import apply_time_range_vevent, as_tz_aware_ts, expand_calendar_rrule
+from .icalendar import (
+    apply_time_range_vevent,
+    as_tz_aware_ts,
+    component_factory,
+    expand_calendar_rrule,
+)
 
 ET = webdav.ET
 
